@@ -808,4 +808,110 @@ theorem FInv.consts {opts : Opts} {d : Decls} {defs defs' : Defs} {nodes : List 
         rw [evalSimple_indep d d' x defs'' e hpure]; exact hev
       · simp only at hr; rw [hres] at hr; cases hr
 
+theorem resolveIfs_refSub (d : Decls) (defs : Defs) (nodes out : List AstNode) (k : Nat)
+    (h : resolveIfs d defs nodes = .ok (out, k)) : RefSub out nodes := by
+  unfold resolveIfs at h
+  have key : ∀ (l : List AstNode) (acc : Except String (List AstNode × Nat)) (out : List AstNode) (k : Nat),
+      (∀ n ∈ l, n ∈ nodes) → (∀ o c, acc = .ok (o, c) → RefSub o nodes) →
+      l.foldl (fun acc n =>
+        match acc with
+        | .error e => .error e
+        | .ok (out, count) =>
+          match n with
+          | .ifDir cond t f =>
+            match evalSimple d defs cond with
+            | .error m => .error m
+            | .ok (.bool true) => .ok (t.map AstNode.fresh ++ out, count + 1)
+            | .ok (.bool false) => .ok ((f.getD []).map AstNode.fresh ++ out, count + 1)
+            | .ok _ => .ok (n :: out, count)
+          | _ => .ok (n :: out, count)) acc = .ok (out, k) → RefSub out nodes := by
+    intro l
+    induction l with
+    | nil => intro acc out k _ ha h; exact ha out k h
+    | cons n rest ih =>
+      intro acc out k hl ha h
+      rw [List.foldl_cons] at h
+      refine ih _ out k (fun x hx => hl x (List.mem_cons_of_mem _ hx)) ?_ h
+      intro o c ho
+      have hn := hl n (List.mem_cons_self ..)
+      cases acc with
+      | error e => cases ho
+      | ok x =>
+        obtain ⟨o0, c0⟩ := x
+        have h0 := ha o0 c0 rfl
+        have hcons : RefSub (n :: o0) nodes := by
+          intro x hx hr
+          cases hx with
+          | head => exact hn
+          | tail _ hx => exact h0 x hx hr
+        have hfresh : ∀ (t : List AstNode), RefSub (t.map AstNode.fresh ++ o0) nodes := by
+          intro t x hx hr
+          rcases List.mem_append.mp hx with hx | hx
+          · obtain ⟨y, _, rfl⟩ := List.mem_map.mp hx
+            rw [symRef_fresh] at hr; cases hr
+          · exact h0 x hx hr
+        simp only at ho
+        split at ho
+        · split at ho
+          · cases ho
+          · injection ho with ho; injection ho with h1 _; rw [← h1]; exact hfresh _
+          · injection ho with ho; injection ho with h1 _; rw [← h1]; exact hfresh _
+          · injection ho with ho; injection ho with h1 _; rw [← h1]; exact hcons
+        · injection ho with ho; injection ho with h1 _; rw [← h1]; exact hcons
+  exact key nodes.reverse (.ok ([], 0)) out k (fun n hn => List.mem_reverse.mp hn)
+    (fun o c ho => by injection ho with ho; injection ho with h1 _; rw [← h1]; intro x hx; cases hx) h
+
+theorem FInv.sub {opts : Opts} {d : Decls} {defs : Defs} {nodes out : List AstNode} (f : FInv opts d defs nodes)
+    (hk : KInv d.symbols out) (hs : RefSub out nodes) : FInv opts d defs out := by
+  refine ⟨hk, f.fn.sub hs, f.s0, fun n hn => ?_⟩
+  cases hr : symRef n with
+  | none =>
+    cases n with
+    | symbol l nm kd ne rr =>
+      cases rr with
+      | none => cases kd <;> trivial
+      | some r => cases hr
+    | _ => trivial
+  | some r => exact f.ni n (hs n hn (by rw [hr]; rfl))
+
+theorem SlotsOK.sub {defs : Defs} {nodes out : List AstNode} (h : SlotsOK defs nodes) (hs : RefSub out nodes) : SlotsOK defs out :=
+  fun n hn r hr => h n (hs n hn (by rw [hr]; rfl)) r hr
+
+/-- **the declaration loop establishes the slot facts** -/
+theorem declLoop_finv (opts : Opts) :
+    ∀ (fuel : Nat) (d : Decls) (defs : Defs) (nodes : List AstNode) (prev : Nat) (d' : Decls) (defs' : Defs) (nodes' : List AstNode),
+      FInv opts d defs nodes → declLoop opts fuel d defs nodes prev = .ok (d', defs', nodes') →
+      FInv opts d' defs' nodes' ∧ SlotsOK defs' nodes' := by
+  intro fuel
+  induction fuel with
+  | zero => intro d defs nodes prev d' defs' nodes' _ h; simp [declLoop] at h
+  | succ f ih =>
+    intro d defs nodes prev d' defs' nodes' fi h
+    simp only [declLoop] at h
+    cases hc : collectAll d nodes with
+    | error e => rw [hc] at h; cases h
+    | ok x =>
+      obtain ⟨d1, n1⟩ := x
+      rw [hc] at h
+      simp only at h
+      have f1 := fi.collect hc
+      obtain ⟨f2, s2, _⟩ := FInv.define (opts := opts) (d := d1) (nodes := n1) n1 defs (fun _ hn => hn) f1
+      cases hr : resolveConstantsSimple opts d1 (defineSymbols defs n1) n1 with
+      | error e => rw [hr] at h; cases h
+      | ok y =>
+        obtain ⟨defs2, cnt⟩ := y
+        rw [hr] at h
+        simp only at h
+        obtain ⟨f3, s3⟩ := f2.consts (fun n hn r hr' => s2 n hn r hr') hr
+        split at h
+        · cases h
+        · rename_i nodes2 ifs hri
+          have hsub := resolveIfs_refSub d1 defs2 n1 nodes2 ifs hri
+          have hk2 := resolveIfs_kinv d1.symbols _ _ _ _ _ f3.kinv hri
+          split at h
+          · injection h with h; injection h with h1 h; injection h with h2 h3
+            subst h1 h2 h3
+            exact ⟨f3.sub hk2 hsub, s3.sub hsub⟩
+          · exact ih _ _ _ _ _ _ _ (f3.sub hk2 hsub) h
+
 end Casm
